@@ -662,7 +662,14 @@ def finding_probes(ctx):
             ctx.known(f['id'])
         else:
             ctx.notes.append(f"finding_not_reproduced {f['id']} (errors {errs})")
-    fs = [f for f in ctx.findings if f.get('status') == 'open' and f['witness'].get('kind') != 'concurrent']
+    for f in [f for f in ctx.findings if f.get('status') == 'open' and f['witness'].get('kind') == 'reentrant']:
+        pool()
+        o = W.run_reentrant((str(ctx.rundir / 'fs' / ('finding-' + f['id'])), f['witness']))
+        if o.get('notes') == f['witness']['expect_notes'] and all(x['ok'] for w in ('a', 'b') for x in o['outs'][w]):
+            ctx.known(f['id'])
+        else:
+            ctx.notes.append(f"finding_not_reproduced {f['id']} ({json.dumps(o)[:300]})")
+    fs = [f for f in ctx.findings if f.get('status') == 'open' and f['witness'].get('kind') not in ('concurrent', 'reentrant')]
     if not fs:
         return
     specs = [dict(f['witness']) for f in fs]
@@ -689,14 +696,16 @@ def run(ctx):
         'random variables, datainfo, dataset, name, description, results of the retrieved entry equal the stored one)',
         'pharmpy.workflows.contexts.baseclass.datetime is replaced by a fixed clock in the child processes (harness side)',
         'two-writer runs: two forked processes started by a pipe signal, random sleeps inside the audit hook; the final tree '
-        'is compared inside Coq with both serial orders (C16/Check.v cverdict); the bounded interleaving theorem assumes the '
-        'locked section atomic (property C15)',
+        'is compared inside Coq with both serial orders (C16/Check.v cverdict); the interleaving theorems (all schedules) assume the '
+        'locked section atomic (property C15); a finding witness of kind reentrant runs the second call inside the audit '
+        'hook of the first (c16_worker.run_reentrant)',
     ]
     ctx.assumptions += [
         'durability is not covered: a completed write/close is assumed to be on disk (the code never calls fsync)',
         'a crash is a prefix of the audited operation sequence, the last write possibly cut to a prefix; every other '
         'operation (mkdir, create, unlink, symlink, rename) is atomic',
-        'single writer: concurrent transactions are excluded by the database-wide lock (property C15)',
+        'crash theorems: single writer; two concurrent writers (different keys / annotations / log) are covered without '
+        'crashes, at system-call granularity, with the locked sections atomic (property C15)',
         'ModelHash / DatasetHash are collision free (keys and dataset hashes are abstract identifiers in the model)',
         'one level of subcontexts, NONMEM models (model.ctl), UTF-8 encodable text; model descriptions '
         'are valid NONMEM titles (write_model raising inside the transaction is not modelled)',
@@ -747,12 +756,12 @@ def run(ctx):
             s3, o3 = expand_crashes(ctx, two_item_workloads(), 'two', dense=False, limit=10, lighten=True)
             specs += s3
             obs += o3
-            s4, o4 = expand_crashes(ctx, two_item_workloads(three=True), 'three', dense=False, limit=2, lighten=True)
+            s4, o4 = expand_crashes(ctx, two_item_workloads(three=True), 'three', dense=False, limit=3, lighten=True)
             specs += s4
             obs += o4
             ctx.coverage['three_item_workloads'] = 343
             ctx.coverage['exhaustive_note'] = ('every workload of 1 or 2 items over a 7-item alphabet (56 workloads) with 10 '
-                                               'sampled crash points each; every workload of exactly 3 items over the same alphabet (343 workloads) with 2 '
+                                               'sampled crash points each; every workload of exactly 3 items over the same alphabet (343 workloads) with 3 '
                                                'sampled crash points each; workloads of 4 items are sampled')
         cobs, cverd = run_concurrent(ctx, concurrent_specs(ctx, 8 if quick else 80), 'conc')
         ctx.coverage['concurrent_writer_runs'] = len(cverd)
